@@ -33,9 +33,25 @@ impl BTreeSet<String> {
 }
 //@ extract sort.rs struct TopologicalSortMachine
 //@ end
+// R4/R8: iterating a BTreeSet<String> yields its elements in order, each once
+#[verifier::external_body]
+fn btree_into_vec(s: BTreeSet<String>) -> (r: Vec<String>)
+    ensures forall|x: String| s@.contains(x) <==> #[trigger] r@.contains(x), r@.no_duplicates(), r@.len() < usize::MAX,
+{ unimplemented!() }
+impl NodePack {
+//@ extract sort.rs impl /^NodePack$/ fn new
+//@ props C12
+//@ ret res
+//@ spec
+        ensures res.leaves == leaves, res.nodes == nodes,
+//@ end
+}
+#[verifier::external_body] proof fn string_ext(a: String, b: String) requires a@ == b@ ensures a == b {}
+// the element that turned l0 into l1 (ghost helper for the hint at source_leaves.insert)
+spec fn string_inserted(l0: Set<String>, l1: Set<String>) -> String { choose|x: String| l1 == l0.insert(x) }
 #[verifier::external_body] proof fn string_key_model() ensures obeys_key_model::<String>() {}
 #[verifier::external_body] proof fn usize_key_model() ensures obeys_key_model::<usize>() {}
-#[verifier::external_body] fn string_to_owned(s: &String) -> (r: String) ensures r@ == s@ { s.to_owned() }
+#[verifier::external_body] fn string_to_owned(s: &String) -> (r: String) ensures r == *s { s.to_owned() }
 // R4: `stack.iter().position(|f| f.index == *buffer_index && !f.visited)`
 #[verifier::external_body]
 fn position_unvisited(stack: &Vec<Frame>, idx: usize) -> (r: Option<usize>)
@@ -89,7 +105,35 @@ proof fn count_all_unv(s: Seq<Frame>) requires all_unv(s) ensures count_unv(s) =
 // ---------- safety vocabulary: tl[b] = number of targets of the rule at buffer index b ----------
 spec fn fok(f: Frame, tl: Seq<int>) -> bool { f.index < tl.len() && f.targets@.len() == tl[f.index as int] && f.sub_index < f.targets@.len() }
 spec fn all_fok(v: Seq<Frame>, tl: Seq<int>) -> bool { forall|p: int| 0 <= p < v.len() ==> fok(#[trigger] v[p], tl) }
+// how one source is bound: a leaf of that name at that position, or the owning rule's final position and the target's position in it
+spec fn src_bound(si: SourceIndex, src: String, leaves: Seq<String>, m: Map<String, (usize, usize)>, fb: Seq<FrameBufferValue>) -> bool {
+    match si {
+        SourceIndex::Leaf(i) => i < leaves.len() && leaves[i as int] == src,
+        SourceIndex::Pair(p, sub) => !leaves.contains(src) && m.contains_key(src) && m[src].0 < fb.len() && p == fb[m[src].0 as int].final_index && sub == m[src].1,
+    }
+}
+spec fn node_of(n: Node, f: Frame, leaves: Seq<String>, m: Map<String, (usize, usize)>, fb: Seq<FrameBufferValue>) -> bool {
+    &&& n.targets == f.targets && n.command == f.command && n.rule_ticket == f.rule_ticket
+    &&& n.source_indices@.len() == f.sources@.len()
+    &&& forall|k: int| 0 <= k < f.sources@.len() ==> src_bound(#[trigger] n.source_indices@[k], f.sources@[k], leaves, m, fb)
+}
+// every one of the first k sources of f is a rule's target (in the index map) or a recorded leaf
+spec fn srcs_known(f: Frame, m: Map<String, (usize, usize)>, leaves: Set<String>, k: int) -> bool {
+    forall|j: int| 0 <= j < k ==> m.contains_key(#[trigger] f.sources@[j]) || leaves.contains(f.sources@[j])
+}
+spec fn all_known(v: Seq<Frame>, m: Map<String, (usize, usize)>, leaves: Set<String>, only_visited: bool) -> bool {
+    forall|p: int| 0 <= p < v.len() ==> ((#[trigger] v[p]).visited || !only_visited) ==> srcs_known(v[p], m, leaves, v[p].sources@.len() as int)
+}
+proof fn known_mono(v: Seq<Frame>, m: Map<String, (usize, usize)>, l1: Set<String>, l2: Set<String>, ov: bool)
+    requires all_known(v, m, l1, ov), l1.subset_of(l2) ensures all_known(v, m, l2, ov)
+{
+    assert forall|p: int| 0 <= p < v.len() && ((#[trigger] v[p]).visited || !ov) implies srcs_known(v[p], m, l2, v[p].sources@.len() as int) by {
+        assert(srcs_known(v[p], m, l1, v[p].sources@.len() as int));
+    }
+}
 impl TopologicalSortMachine {
+    // every emitted frame knows where each of its sources comes from (needed by get_result's unwrap)
+    spec fn wf_e(&self) -> bool { all_known(self.frames_in_order@, self.to_buffer_index@, self.source_leaves@, false) }
     // machine well-formedness, safety part: buffered frames sit at their own index with at least one target; the target index
     // only mentions existing (rule, position) pairs
     spec fn wf_s(&self, tl: Seq<int>) -> bool {
@@ -108,13 +152,16 @@ impl TopologicalSortMachine {
 //@ retype 1 /let mut target_cycle = vec!\[\];/ => let mut target_cycle : Vec<String> = Vec::new();
 //@ param Ghost(tl): Ghost<Seq<int>>
 //@ spec
-        requires old(self).wf_s(tl), index < tl.len(), sub_index < tl[index as int],
+        requires old(self).wf_s(tl), old(self).wf_e(), index < tl.len(), sub_index < tl[index as int],
         ensures final(self).wf_s(tl),                                                     //# O-S-machine-wf [C12,C05]
+            res is Ok ==> final(self).wf_e(),                                             //# O-S-sources-known [C12,C05]
+            final(self).to_buffer_index@ == old(self).to_buffer_index@,
 //@ hint start
         broadcast use vstd::std_specs::hash::group_hash_axioms;
         proof { string_key_model(); usize_key_model(); }
 //@ loop 1 invariant
             invariant self.wf_s(tl), all_fok(stack@, tl), obeys_key_model::<String>(), obeys_key_model::<usize>(),
+                self.wf_e(), all_known(stack@, self.to_buffer_index@, self.source_leaves@, true), self.to_buffer_index@ == old(self).to_buffer_index@,
             decreases count_some(self.frame_buffer@) + count_unv(stack@), stack@.len(),
 //@ hint after 1/1 /while let Some\(frame\) = stack\.pop\(\)\s*\{/
             let ghost fb0 = self.frame_buffer@; let ghost st0 = stack@;     // (stack already popped: st0 is the rest)
@@ -126,6 +173,8 @@ impl TopologicalSortMachine {
 //@ loop 2 invariant
                     invariant self.wf_s(tl), all_fok(stack@, tl), all_fok(reverser@, tl), fok(frame, tl), obeys_key_model::<String>(), obeys_key_model::<usize>(),
                         all_unv(reverser@), !frame.visited,
+                        self.wf_e(), all_known(stack@, self.to_buffer_index@, self.source_leaves@, true), self.to_buffer_index@ == old(self).to_buffer_index@,
+                        srcs_known(frame, self.to_buffer_index@, self.source_leaves@, it.index@),
                         count_some(self.frame_buffer@) + count_unv(stack@) + reverser@.len() == m0 - 1,
 //@ loop 3 binder it3
 //@ loop 3 invariant
@@ -133,6 +182,7 @@ impl TopologicalSortMachine {
 //@ loop 4 invariant
                     invariant self.wf_s(tl), all_fok(stack@, tl), all_fok(reverser@, tl), obeys_key_model::<usize>(),
                         all_unv(reverser@),
+                        self.wf_e(), all_known(stack@, self.to_buffer_index@, self.source_leaves@, true), self.to_buffer_index@ == old(self).to_buffer_index@,
                         count_some(self.frame_buffer@) + count_unv(stack@) + reverser@.len() == m0 - 1,
                     ensures reverser@.len() == 0,
                     decreases reverser@.len(),
@@ -145,6 +195,14 @@ impl TopologicalSortMachine {
                                 }
 //@ hint after 1/1 /sibling\.sub_index = \*sub_index;\s*reverser\.push\(sibling\);/
                                             proof { count_unv_remove(st1, position as int); assert(self.frame_buffer@ =~= fb1); }
+//@ hint before 1/1 /self\.source_leaves\.insert\(/
+                            let ghost lv0 = self.source_leaves@;
+//@ hint after 1/1 /self\.source_leaves\.insert\(source\.to_owned\(\)\);/
+                            proof {
+                                known_mono(self.frames_in_order@, self.to_buffer_index@, lv0, self.source_leaves@, false);
+                                known_mono(stack@, self.to_buffer_index@, lv0, self.source_leaves@, true);
+                                assert(srcs_known(frame, self.to_buffer_index@, lv0, it.index@));
+                            }
 //@ hint before 1/1 /\},\s*None =>\s*\{\s*self\.source_leaves\.insert/
                             proof { if reverser@.len() == rv1.len() { assert(self.frame_buffer@ =~= fb1); } }
 //@ hint after 1/1 /stack\.push\(frame\.visit\(\)\);/
@@ -155,6 +213,73 @@ impl TopologicalSortMachine {
                     let ghost st4 = stack@;
 //@ hint after 1/1 /indices_in_stack\.insert\(f\.index\);\s*stack\.push\(f\);/
                     proof { count_unv_push(st4, f); }
+//@ end
+
+//@ extract sort.rs impl /^TopologicalSortMachine$/ fn new
+//@ props C12 C05
+//@ ret res
+//@ rewrite 1 /BTreeSet::new\(\)/ => BTreeSet::<String>::new()
+//@ spec
+        ensures res.frame_buffer == frame_buffer, res.to_buffer_index == to_buffer_index, res.frames_in_order@.len() == 0, res.source_leaves@ == Set::<String>::empty(),
+//@ end
+
+//@ extract sort.rs impl /^TopologicalSortMachine$/ fn get_result
+//@ props C12 C05 C01
+//@ attr #[verifier::loop_isolation(false)]
+//@ ret res
+//@ param Ghost(tl): Ghost<Seq<int>>
+//@ insert before 1/1 /for leaf in self\.source_leaves/ => let leaf_vec = btree_into_vec(self.source_leaves);
+//@ rewrite 1 /(?<=for leaf in )self\.source_leaves/ => leaf_vec
+//@ rewrite 1 /self\.frames_in_order\.drain\(\.\.\)/ => self.frames_in_order
+//@ rewrite 1 /frame\.sources\.drain\(\.\.\)/ => frame.sources
+//@ rewrite 1 /get_result\(mut self/ => get_result(self
+//@ retype 1 /let mut num_leaves = 0;/ => let mut num_leaves : usize = 0;
+//@ retype 1 /let mut nodes = Vec::new\(\);/ => let mut nodes : Vec<Node> = Vec::new();
+//@ retype 1 /let mut leaves = Vec::new\(\);/ => let mut leaves : Vec<String> = Vec::new();
+//@ retype 1 /let mut leaf_to_index = HashMap::new\(\);/ => let mut leaf_to_index : HashMap<String, usize> = HashMap::new();
+//@ retype 1 /let mut source_indices = vec!\[\];/ => let mut source_indices : Vec<SourceIndex> = Vec::new();
+//@ spec
+        requires self.wf_s(tl), self.wf_e(),
+        ensures
+            // never fails, never panics: every source of every emitted rule is a recorded leaf or an indexed target (the unwrap)      //# O-S-result-total [C05,C12]
+            res matches Ok(pack) ==> pack.nodes@.len() == self.frames_in_order@.len()
+                // leaves: exactly the recorded leaf paths, each once
+                && (forall|x: String| self.source_leaves@.contains(x) <==> #[trigger] pack.leaves@.contains(x)) && pack.leaves@.no_duplicates()
+                // node i is emitted frame i with every source bound by name: to the leaf of that name, or to (final position of the
+                // rule owning that target, position of the target in that rule)                                                          //# O-S-binding [C12,C01]
+                && (forall|i: int| 0 <= i < pack.nodes@.len() ==> node_of(#[trigger] pack.nodes@[i], self.frames_in_order@[i], pack.leaves@, self.to_buffer_index@, self.frame_buffer@)),
+            res is Ok,
+//@ hint start
+        broadcast use vstd::std_specs::hash::group_hash_axioms;
+        proof { string_key_model(); }
+        let ghost m = self.to_buffer_index@; let ghost fb = self.frame_buffer@; let ghost leafset = self.source_leaves@; let ghost fio = self.frames_in_order@;
+//@ loop 1 binder it
+//@ loop 1 invariant
+            invariant num_leaves == it.index@, leaves@ =~= leaf_vec@.subrange(0, it.index@),
+                forall|x: String| #![trigger leaf_to_index@.contains_key(x)] leaf_to_index@.contains_key(x) ==> leaf_to_index@[x] < it.index@ && leaf_vec@[leaf_to_index@[x] as int] == x,
+                forall|j: int| 0 <= j < it.index@ ==> leaf_to_index@.contains_key(#[trigger] leaf_vec@[j]),
+//@ hint after 1/1 /num_leaves \+= 1;/
+            proof { assert(leaves@ =~= leaf_vec@.subrange(0, it.index@ + 1)); }
+//@ hint before 1/1 /for mut frame in self\.frames_in_order\.drain\(\.\.\)/
+        proof { assert(leaves@ =~= leaf_vec@); }
+//@ loop 2 binder it2
+//@ loop 2 invariant
+            invariant nodes@.len() == it2.index@,
+                forall|i: int| 0 <= i < it2.index@ ==> node_of(#[trigger] nodes@[i], fio[i], leaves@, m, fb),
+//@ hint after 1/1 /let mut source_indices = vec!\[\];/
+            let ghost fr0 = frame;
+            proof { assert(fr0 == fio[it2.index@]); assert(srcs_known(fr0, m, leafset, fr0.sources@.len() as int)); }
+//@ loop 3 binder it3
+//@ loop 3 invariant
+                invariant source_indices@.len() == it3.index@,
+                    forall|k: int| 0 <= k < it3.index@ ==> src_bound(#[trigger] source_indices@[k], fr0.sources@[k], leaves@, m, fb),
+//@ hint before 1/1 /match leaf_to_index\.get\(&source\)/
+                proof {
+                    assert(source == fr0.sources@[it3.index@]);
+                    if !leaf_to_index@.contains_key(source) {
+                        if leafset.contains(source) { assert(leaf_vec@.contains(source)); let j = choose|j: int| 0 <= j < leaf_vec@.len() && leaf_vec@[j] == source; assert(leaf_to_index@.contains_key(leaf_vec@[j])); }
+                    }
+                }
 //@ end
 }
 
